@@ -2420,3 +2420,266 @@ def rule_adjacency_header(repo, col):
               'the first line is no longer compared with the documented '
               'header: a record whose observation id starts with "#" is '
               'taken for a header and dropped')
+
+
+# ===========================================================================
+# rules for three documented misses of round 8 (C16-O, C02-P, C06-P)
+# ===========================================================================
+RULE_TEXT.update({
+    'AX-RAWFORMAT': 'a CSR (CSC) matrix assembled from raw (data, indices, '
+                    'indptr) arrays takes the index arrays only from '
+                    'objects whose format is pinned to CSR (CSC) on every '
+                    'path: the `indices` of a CSC vector are row numbers, '
+                    'those of a CSR vector column numbers.',
+    'TA-SCATTER': 'stored entries are never scattered by fancy assignment '
+                  '`a[x.indices] = x.data`: an index stored in several '
+                  'pieces (legal for the matrices the constructor accepts) '
+                  'keeps only the last piece instead of their sum.',
+    'TA-FILTERMAX': 'max()/min() over a selection filtered by a test on a '
+                    'caller-supplied argument has a default or is guarded: '
+                    'the selection may be empty for a valid call.',
+})
+
+
+def _reaching_defs(fn, name, at):
+    """(assignments to `name` reaching the statement of `at`,
+    whether a binding other than an assignment - parameter, loop target,
+    with-item - reaches it too)."""
+    from .cfg import CFG
+    cfg = CFG(fn)
+    here = [c for c in cfg.stmt_nodes() if c.kind == 'stmt' and any(
+        x is at for x in ast.walk(c.stmt)) and not isinstance(
+        c.stmt, (ast.For, ast.While, ast.If, ast.With, ast.Try))]
+    if not here:
+        return [], True
+    defs = {}
+    for c in cfg.stmt_nodes():
+        st = c.stmt
+        if c.kind == 'stmt' and isinstance(st, ast.Assign) and any(
+                isinstance(t, ast.Name) and t.id == name
+                for t in st.targets):
+            defs[c] = st
+    out, seen, stack, other = [], set(), list(cfg.pred[here[0]]), False
+    while stack:
+        c = stack.pop()
+        if c in seen:
+            continue
+        seen.add(c)
+        if c in defs:
+            out.append(defs[c])
+            continue
+        if c is cfg.entry:
+            other = True
+            continue
+        stack.extend(cfg.pred[c])
+    return out, other
+
+
+def _pinned_kind(e):
+    """'csr' / 'csc' when expression `e` yields that format for sure."""
+    if isinstance(e, ast.Call):
+        name = (call_name(e) or '').split('.')[-1]
+        if name in ('tocsr', 'csr_matrix', 'csr_array'):
+            return 'csr'
+        if name in ('tocsc', 'csc_matrix', 'csc_array'):
+            return 'csc'
+        if name in ('astype', 'copy') and isinstance(e.func, ast.Attribute):
+            return _pinned_kind(e.func.value)
+    return None
+
+
+def _feeding_raw_reads(fn, expr, depth=0, seen=None):
+    """`<Name>.indices` / `<Name>.indptr` reads whose value flows into
+    `expr` (through names, append/extend, element stores)."""
+    seen = seen if seen is not None else set()
+    out = []
+    for n in ast.walk(expr):
+        if isinstance(n, ast.Attribute) and n.attr in (
+                'indices', 'indptr') and isinstance(n.value, ast.Name):
+            out.append(n)
+    if depth > 4:
+        return out
+    for n in ast.walk(expr):
+        if not isinstance(n, ast.Name) or n.id in seen:
+            continue
+        seen.add(n.id)
+        for s in body_walk(fn):
+            if isinstance(s, ast.Assign) and any(
+                    isinstance(t, ast.Name) and t.id == n.id or
+                    isinstance(t, ast.Subscript) and
+                    dotted(t.value) == n.id for t in s.targets):
+                out += _feeding_raw_reads(fn, s.value, depth + 1, seen)
+            elif isinstance(s, ast.Call) and isinstance(
+                    s.func, ast.Attribute) and s.func.attr in (
+                    'append', 'extend', 'insert') and dotted(
+                    s.func.value) == n.id:
+                for a in s.args:
+                    out += _feeding_raw_reads(fn, a, depth + 1, seen)
+    return out
+
+
+def rule_raw_format(repo, col, rels=(TABLE,)):
+    rule = 'AX-RAWFORMAT'
+    n = 0
+    for rel, q, fn in repo.all_functions():
+        if rel not in rels or isinstance(fn, ast.Lambda):
+            continue
+        for c in body_walk(fn):
+            if not isinstance(c, ast.Call) or not c.args:
+                continue
+            kind = _pinned_kind(c)
+            t = c.args[0]
+            if kind is None or not (isinstance(t, ast.Tuple) and
+                                    len(t.elts) == 3):
+                continue
+            n += 1
+            role = 'raw-%s@%d' % (kind, n)
+            reads, uniq = [], set()
+            for r in _feeding_raw_reads(fn, t.elts[1]) + \
+                    _feeding_raw_reads(fn, t.elts[2]):
+                if id(r) not in uniq:
+                    uniq.add(id(r))
+                    reads.append(r)
+            if not reads:
+                col.ok(rule, rel, q, role, c,
+                       'index arrays not taken from another sparse object')
+                continue
+            for r in reads:
+                defs, other = _reaching_defs(fn, r.value.id, r)
+                kinds = {_pinned_kind(d.value) for d in defs}
+                if defs and not other and kinds == {kind}:
+                    col.ok(rule, rel, q, role, r, 'format pinned to %s'
+                           % kind)
+                elif (kinds - {None, kind}) or (defs and kinds & {
+                        'csr', 'csc'}):
+                    # some path pins the format and another one does not
+                    # (or pins the other one): the code itself says the
+                    # object may arrive in several formats
+                    col.bad(rule, rel, q, 'mixed-format-read', r,
+                            '`%s` feeds a raw %s matrix but `%s` is only '
+                            'converted on some paths: for a %s vector the '
+                            'array holds %s numbers' % (
+                                unparse(r, 40), kind.upper(), r.value.id,
+                                'CSC' if kind == 'csr' else 'CSR',
+                                'row' if kind == 'csr' else 'column'))
+                else:
+                    col.unknown(rule, rel, q, role, r,
+                                'format of `%s` not resolved' % r.value.id)
+    col.ok(rule, TABLE, '<file>', 'scan', None,
+           '%d matrices assembled from raw arrays' % n)
+
+
+def rule_scatter(repo, col, rels=(TABLE,)):
+    rule = 'TA-SCATTER'
+    n = 0
+    for rel, q, fn in repo.all_functions():
+        if rel not in rels or isinstance(fn, ast.Lambda):
+            continue
+        src = None
+        for s in body_walk(fn):
+            if isinstance(s, ast.Assign):
+                tgts, val = s.targets, s.value
+            elif isinstance(s, ast.AugAssign):
+                tgts, val = [s.target], s.value
+            else:
+                continue
+            for t in tgts:
+                if not isinstance(t, ast.Subscript):
+                    continue
+                n += 1
+                idx = [a for a in ast.walk(t.slice) if isinstance(
+                    a, ast.Attribute) and a.attr == 'indices']
+                if not idx:
+                    continue
+                owner = dotted(idx[0].value)
+                vals = [a for a in ast.walk(val) if isinstance(
+                    a, ast.Attribute) and a.attr == 'data' and
+                    dotted(a.value) == owner]
+                if not vals or owner is None:
+                    continue
+                src = src or unparse(fn, 50000)
+                merged = ('%s.sum_duplicates()' % owner) in src or \
+                    ('%s.has_canonical_format' % owner) in src
+                col.check(merged, rule, rel, q, 'scatter', s,
+                          'duplicates merged first',
+                          '`%s` writes the stored pieces of `%s` by fancy '
+                          'assignment: a position stored in several pieces '
+                          'keeps the last piece, every other accessor '
+                          'reports their sum' % (unparse(s, 60), owner))
+    col.ok(rule, TABLE, '<file>', 'scan', None,
+           '%d element stores examined' % n)
+
+
+def rule_filtered_extreme(repo, col, rels=(TABLE,)):
+    rule = 'TA-FILTERMAX'
+    n = 0
+    for rel, q, fn in repo.all_functions():
+        if rel not in rels or isinstance(fn, ast.Lambda):
+            continue
+        params = {a.arg for a in fn.args.args + fn.args.kwonlyargs} - {
+            'self', 'cls'}
+        comps = {}
+        for s in body_walk(fn):
+            if isinstance(s, ast.Assign) and len(s.targets) == 1 and \
+                    isinstance(s.targets[0], ast.Name) and isinstance(
+                    s.value, (ast.ListComp, ast.GeneratorExp, ast.SetComp)):
+                comps.setdefault(s.targets[0].id, []).append(s.value)
+        for c in body_walk(fn):
+            if not (isinstance(c, ast.Call) and isinstance(c.func, ast.Name)
+                    and c.func.id in ('max', 'min') and len(c.args) == 1):
+                continue
+            if any(k.arg == 'default' for k in c.keywords):
+                continue
+            n += 1
+            a = c.args[0]
+            cands = [a]
+            for x in ast.walk(a):
+                if isinstance(x, ast.Name) and len(comps.get(x.id, [])) == 1:
+                    cands.append(comps[x.id][0])
+            names = set()
+            filt = []
+            for cand in cands:
+                for x in ast.walk(cand):
+                    if isinstance(x, (ast.ListComp, ast.GeneratorExp,
+                                      ast.SetComp)):
+                        for g in x.generators:
+                            for t in g.ifs:
+                                filt.append(t)
+                        for y in ast.walk(x):
+                            if isinstance(y, ast.Name) and len(
+                                    comps.get(y.id, [])) == 1 and \
+                                    comps[y.id][0] not in cands:
+                                cands.append(comps[y.id][0])
+                if isinstance(cand, ast.Name):
+                    names.add(cand.id)
+            names |= {x.id for x in ast.walk(a) if isinstance(x, ast.Name)
+                      and x.id in comps}
+            on_param = [t for t in filt if any(
+                isinstance(y, ast.Name) and y.id in params
+                for y in ast.walk(t))]
+            role = 'extreme@%d' % n
+            if not on_param:
+                col.ok(rule, rel, q, role, c, 'not filtered by an argument')
+                continue
+            from .flow import reached_under  # noqa: F401
+            guarded = False
+            par = {}
+            for p in ast.walk(fn):
+                for ch in ast.iter_child_nodes(p):
+                    par[ch] = p
+            x = c
+            while x in par:
+                p = par[x]
+                if isinstance(p, (ast.If, ast.IfExp)) and any(
+                        isinstance(y, ast.Name) and y.id in names
+                        for y in ast.walk(p.test)):
+                    guarded = True
+                x = p
+            col.check(guarded, rule, rel, q, 'filtered-extreme', c,
+                      'guarded by a test of the selection',
+                      '`%s` ranges over a selection filtered by `%s`: a '
+                      'valid call for which nothing passes the filter '
+                      'raises ValueError (no default, no guard)' % (
+                          unparse(c, 60), unparse(on_param[0], 40)))
+    col.ok(rule, TABLE, '<file>', 'scan', None,
+           '%d max/min reductions examined' % n)
